@@ -83,6 +83,12 @@ def h_loop(ctx, hold, n_events, ours=None, theirs=None):
 
     peer = P.new_peer(neighbor, script)
     result = P.drive(peer._run(), max_steps=200000)
+    return judge_loop(ctx, hold, kinds, result)
+
+
+def judge_loop(ctx, hold, kinds, result, deliveries=None, last_octet=None):
+    """deliveries: instants at which a COMPLETE message had arrived (default: what the message-level transport recorded);
+    last_octet: instants at which any octet arrived (byte-level transport: a silence is also counted from the last octet)"""
     w = P.WORLD
     est = [t for t, fr, to in w.fsm_t if to == 'ESTABLISHED']
     info = {'hold': hold, 'events': kinds, 'result': result[0], 'notifications': P.notifications(),
@@ -96,7 +102,7 @@ def h_loop(ctx, hold, n_events, ours=None, theirs=None):
     t_end = ended[0] if ended else w.now
     kas = [t for st, t, data in w.written if st == 'ESTABLISHED' and len(data) >= 19 and data[18] == 4 and t_est <= t <= t_end]
     notes = [(t, data[19], data[20]) for st, t, data in w.written if len(data) >= 21 and data[18] == 3]
-    deliveries = [t for t, ty in w.delivered if t >= t_est - 1e-9]
+    deliveries = [t for t, ty in w.delivered if t >= t_est - 1e-9] if deliveries is None else [t for t in deliveries if t >= t_est - 1e-9]
     info.update({'keepalives-at': ['%.2f' % (t - t_est) for t in kas], 'delivered-at': ['%.2f' % (t - t_est) for t in deliveries][:12] + (['...'] if len(deliveries) > 12 else []),
                  'session-length': '%.2f' % (t_end - t_est), 'notified': [('%.2f' % (t - t_est), c, sc) for t, c, sc in notes]})
     for k in kinds:
@@ -129,6 +135,8 @@ def h_loop(ctx, hold, n_events, ours=None, theirs=None):
             ctx.check('not-closed-for-a-short-silence', t - last > hold, sig='C12:loop:closed-after-a-silence-shorter-than-the-hold-time',
                       info=dict(info, silence='%.2f' % (t - last)))
         # every silence that long is answered
+        if last_octet is not None:
+            reads = sorted(set([t_est] + [t for t in last_octet if t >= t_est - 1e-9]))
         ends = reads[1:] + [t_end]
         for a, b in zip(reads, ends):
             if b - a >= hold + 1 + G:
@@ -137,6 +145,56 @@ def h_loop(ctx, hold, n_events, ours=None, theirs=None):
         if 'idle-near' in kinds and not expired:
             ctx.cover('survived-a-silence-just-below-the-hold-time')
     return [kinds, len(kas), [(c, sc) for _, c, sc in notes]]
+
+
+PARTIAL_KINDS = ('whole', 'split-short', 'split-third', 'split-silent', 'idle-third')
+
+
+def h_partial(ctx, hold, n_events):
+    """The same obligations over the BYTE-level transport (the real Connection.reader_async under the real Peer._main): a
+    message may arrive in two pieces with a stall in between - shorter than the read poll, longer than H/3, or for ever.
+    A half-received message is not a received message: KEEPALIVEs keep their cadence during the stall and the hold timer
+    still closes the session with 4/0."""
+    tm.time = P.FakeTime
+    conf = S.mk_conf(local_as=C5.LOCAL_AS, peer_as=C5.PEER_AS, hold=hold, families=('ipv4 unicast',), route_refresh=True)
+    neighbor = S.neighbor_from(conf)
+    neighbor.api = dict(neighbor.api)
+    neighbor.reset_rib()
+    items = [('data', P.msg(1, C5.open_body(hold=hold)) + P.KEEPALIVE)]
+    offset = len(items[0][1])
+    bounds = []                 # stream offsets at which a message is complete
+    kinds = []
+    h3 = hold // 3
+    for i in range(n_events):
+        kind = ctx.pick('ev%d' % i, PARTIAL_KINDS)
+        kinds.append(kind)
+        ctx.cover('kind-' + kind)
+        if kind == 'idle-third':
+            items.append(('pause', h3 + 0.5))
+            continue
+        what = ctx.pick('ev%d.message' % i, ('keepalive', 'update'))
+        m = P.KEEPALIVE if what == 'keepalive' else P.msg(2, C5.UPDATE_OK)
+        if kind == 'whole':
+            items.append(('data', m))
+        else:
+            cut = ctx.pick('ev%d.cut' % i, (1, 18) if what == 'keepalive' else (5, 19, len(m) - 1))
+            stall = {'split-short': 0.35, 'split-third': h3 + 1.5, 'split-silent': hold + 3.5}[kind]
+            items += [('data', m[:cut]), ('pause', stall), ('data', m[cut:])]
+        offset += len(m)
+        bounds.append(offset)
+        items.append(('pause', 0.05))
+        if kind == 'split-silent':
+            break
+    items += [('pause', hold + 3.5), ('eof',)]
+    feeder = P.ByteFeeder(items)
+    peer = P.new_peer(neighbor, feeder)
+    result = P.drive(peer._run(), max_steps=200000)
+    complete = []
+    for b in bounds:
+        at = [t for t, n in feeder.log if n >= b]
+        if at:
+            complete.append(at[0])
+    return judge_loop(ctx, hold, kinds, result, deliveries=complete, last_octet=[t for t, n in feeder.log])
 
 
 def h_second_session(ctx):
@@ -238,5 +296,7 @@ def units(tier):
     us.append(Unit('loop/h0-peer-offers-0-e2', lambda ctx: h_loop(ctx, 0, 2, ours=180, theirs=0), must_cover=tuple('kind-' + k for k in KINDS), weight=60, max_seconds=900))
     us.append(Unit('loop/second-session', h_second_session, weight=40, max_seconds=600,
                    must_cover=('long-then-short/silence', 'long-then-short/slow-keepalives', 'short-then-long/silence', 'short-then-long/slow-keepalives')))
+    us.append(Unit('loop/partial-message/h%d' % (9 if th else 3), lambda ctx: h_partial(ctx, 9 if th else 3, 2), weight=60, max_seconds=900,
+                   must_cover=tuple('kind-' + k for k in PARTIAL_KINDS) + ('keepalive-written', 'hold-timer-expired')))
     us.append(Unit('loop/open-wait', h_open_wait, must_cover=('open-early', 'open-late'), weight=10))
     return us
